@@ -358,8 +358,15 @@ def make_probe(desc, k):
         _, nparams, collect, args, mask = desc
         f = "af%d" % k
         pnames = ["q%d_%d" % (i, k) for i in range(nparams)]
-        body = [A.pr(V(n)) for n in pnames]
-        stmts = [A.FuncStmt(f, [V(n) for n in pnames], collect, body + [A.Return(I(0))])]
+        # one parameter in some probes is the placeholder `_` (it still takes its argument); half of the functions are literals
+        und = (k // 2) % (nparams + 2)
+        if und < nparams and not (collect and und == nparams - 1):
+            pnames[und] = "_"
+        body = [A.pr(V(n)) for n in pnames if n != "_"]
+        if k % 2:
+            stmts = [A.Declare(V(f), A.FuncE([V(n) for n in pnames], collect, body + [A.Return(I(0))]))]
+        else:
+            stmts = [A.FuncStmt(f, [V(n) for n in pnames], collect, body + [A.Return(I(0))])]
         # arguments: consecutive runs marked 1 in mask are passed as one spread list
         items = []
         i = 0
@@ -385,6 +392,8 @@ def make_probe(desc, k):
             return {"stmts": stmts, "expect": None, "tag": "arg_count_mismatch", "what": what}
         lines = []
         for i in range(nparams):
+            if pnames[i] == "_":
+                continue
             if collect and i == nparams - 1:
                 lines += render(arglist[nparams - 1:])
             else:
